@@ -48,12 +48,15 @@ Record case := mk_case {
   (* the call *)
   c_ret : bool; c_op : op; c_base : Z; c_now : Z;
   c_before : list (list goval);
+  (* leaves of the Go struct (walked by the harness) that own no column in the parsed schema,
+     with the values the records held for them: normally none *)
+  c_xkinds : list kind; c_xbefore : list (list goval);
   (* observed *)
   o_err : bool;
   o_after : list (list goval);                 (* in-memory records after Create *)
   o_rows : list (list dbval);                  (* row storing record i (by marker); [] = none *)
   o_rowcount : Z;
-  o_find : list (list goval); o_first : list (list goval); o_take : list (list goval);
+  o_find : list (list goval); o_xfind : list (list goval); o_first : list (list goval); o_take : list (list goval);
   o_mmap : list (list dbval); o_tmap : list (list dbval);
   o_nmaps : Z;
   o_readerrs : Z
@@ -115,6 +118,8 @@ Definition spec_holds (c : case) : bool :=
     (o_readerrs c =? 0) && (o_rowcount c =? n)
     (* read back into fresh structs by Find / First / Take: equal field values *)
     && all2 (rec_eqb fs) (o_after c) (o_find c)
+    (* ... for EVERY field of the struct, also one the schema gave no column of its own *)
+    && all2 (fun b f => is_nil b || all3 (fun k x y => goval_eqb (norm k x) (norm k y)) (c_xkinds c) b f) (c_xbefore c) (o_xfind c)
     && all2 (rec_eqb fs) (o_after c) (o_first c)
     && all2 (rec_eqb fs) (o_after c) (o_take c)
     (* Create keeps every value the caller set; zero values may take defaults / times / keys *)
@@ -134,7 +139,8 @@ Definition spec_parts (c : case) : list bool :=
   let fs := c_fields c in
   let n := Z.of_nat (length (c_before c)) in
   [ o_err c; all_representable c; (o_readerrs c =? 0); (o_rowcount c =? n);
-    all2 (rec_eqb fs) (o_after c) (o_find c); all2 (rec_eqb fs) (o_after c) (o_first c);
+    all2 (rec_eqb fs) (o_after c) (o_find c) && all2 (fun b f => is_nil b || all3 (fun k x y => goval_eqb (norm k x) (norm k y)) (c_xkinds c) b f) (c_xbefore c) (o_xfind c);
+    all2 (rec_eqb fs) (o_after c) (o_first c);
     all2 (rec_eqb fs) (o_after c) (o_take c);
     all2 (fun b a => all3 (fun f x y => is_zero (fd_kind f) x || goval_eqb x y) fs b a) (c_before c) (o_after c);
     all2 (fun a m => is_nil m || all3 (fun f x d => dbval_eqb (proj (fd_kind f) x) d) fs a m) (o_after c) (o_mmap c);
